@@ -690,7 +690,7 @@ func (ex *Exec) compositeLit(st *State, x *ast.CompositeLit, k func(*State, Val)
 		es := ex.w.sortOf(u.Elem())
 		ex.exprList(st, x.Elts, func(st *State, vs []Val) {
 			arr := ex.newArr(st, "lit")
-			row := fmt.Sprintf("((as const (Array Int %s)) %s)", es.Name, ex.w.zero(es))
+			row := ex.zeroRow(es)
 			for i, v := range vs {
 				row = sStore(row, fmt.Sprint(i), v.T)
 			}
@@ -815,7 +815,7 @@ func (ex *Exec) makeSlice(st *State, ty, elem types.Type, n, c string) Val {
 	key := ex.memKey(es)
 	ms := ex.w.memSort(es)
 	m := ex.heapGet(st, key, ms)
-	ex.heapSet(st, key, ms, sStore(m, arr, fmt.Sprintf("((as const (Array Int %s)) %s)", es.Name, ex.w.zero(es))))
+	ex.heapSet(st, key, ms, sStore(m, arr, ex.zeroRow(es)))
 	s := &Sort{Kind: KSlice, Name: "Slice", Elem: es, Go: ty}
 	return Val{T: ex.w.define("made", s, fmt.Sprintf("(mkslice %s 0 %s %s)", arr, n, c)), S: s, Go: ty}
 }
